@@ -249,10 +249,15 @@ pub fn mpls_member() -> BoxedStrategy<MplsMember> {
 
 pub fn ext_object() -> BoxedStrategy<ExtObject> {
     prop_oneof![
-        3 => vec(mpls_member(), 1..=4).prop_map(|mut ms| {
-            // S bit marks the bottom of the stack (RFC 3032)
+        3 => (vec(mpls_member(), 1..=4), prop_oneof![4 => Just(0u8), 1 => Just(1u8), 1 => Just(2u8)], any::<u8>()).prop_map(|(mut ms, how, pick)| {
+            // S bit marks the bottom of the stack (RFC 3032); also stacks that are delimited by
+            // the object length only (no S bit) and stacks whose S bit comes early
             let n = ms.len();
-            ms[n - 1].bos = 1;
+            match how {
+                0 => ms[n - 1].bos = 1,
+                1 => {}
+                _ => ms[usize::from(pick) % n].bos = 1,
+            }
             ExtObject::Mpls(ms)
         }),
         2 => (2u8..=255, any::<u8>(), vec(any::<u8>(), 0..=4)).prop_map(|(class, ctype, words)| {
